@@ -113,6 +113,26 @@ def cumulative(stmt, name) -> bool:
     return False
 
 
+def check_cover(ctx: Ctx, fi, rule="PAIRS"):
+    """every loop over the modes ranges over *all* amplitudes: the iterable is self.amplitudes itself (possibly through
+    enumerate / iterate_in_pairs), not a slice, reshape or other selection of it (an odd last amplitude must not be dropped)"""
+    single = _single_assignments(fi.node)
+
+    def resolve(e, depth=3):
+        if isinstance(e, ast.Name) and e.id in single and depth > 0:
+            return resolve(single[e.id], depth - 1)
+        return e
+
+    for k, lp in enumerate(amp_loops(fi)):
+        it = resolve(lp.node.iter)
+        while isinstance(it, ast.Call) and (dotted(it.func) or "").split(".")[-1] in ("enumerate", "iterate_in_pairs", "list", "tuple", "iter") and it.args:
+            it = resolve(it.args[0])
+        site = f"{fi.qualname}:loop{k}:cover" if k else f"{fi.qualname}:loop:cover"
+        ok = U(it) == "self.amplitudes"
+        ctx.decide(ok, rule, site, (fi, lp.node), "the loop ranges over all amplitudes",
+                   f"the loop over the modes iterates `{U(it)[:70]}`, a selection/reshaping of the amplitudes: some amplitudes never contribute (e.g. the last one of an odd-length vector)")
+
+
 def check_accum(ctx: Ctx, fi):
     fv = view(ctx.model, fi)
     for k, lp in enumerate(amp_loops(fi)):
@@ -455,6 +475,51 @@ def check_unitvec(ctx: Ctx, cname: str):
         ctx.undecided("UNITVEC", site, fi, "several returns")
         return
     ex = fv.expand(rets[0].value, rets[0], stop=tuple(params))
+    # component-wise form: np.c_[x, y(, z)] / np.stack([x, y], axis=-1) / np.transpose([x, y]) with
+    # component k = self.position[k] + distance · (k-th component of the unit vector)
+    comps = None
+    if isinstance(ex, ast.Subscript) and U(ex.value) in ("np.c_", "numpy.c_") and isinstance(ex.slice, ast.Tuple):
+        comps = list(ex.slice.elts)
+    elif isinstance(ex, ast.Call) and U(ex.func).split(".")[-1] in ("stack", "column_stack", "transpose", "array") and ex.args and isinstance(ex.args[0], (ast.List, ast.Tuple)):
+        comps = list(ex.args[0].elts)
+    if comps is not None and len(comps) == dim:
+        rename = {p: f"A{i + 1}" for i, p in enumerate(params)}
+        if dim == 2:
+            rename = {params[0]: "A1"}
+
+        def hook_d(cv, call, name):
+            if isinstance(call.func, ast.Attribute) and call.func.attr == "interface_distance" and U(call.func.value) == "self":
+                return Expr.atom("DIST")
+            return None
+
+        conv = Converter(resolve_dotted=lambda t: m.resolve(fv.mod, t) or t, env={k: Expr.atom(v) for k, v in rename.items()}, call_hook=hook_d)
+        try:
+            bad_k = None
+            got_dirs = []
+            for k, c in enumerate(comps):
+                e = conv.conv(c)
+                centre_k = Expr.atom(f"self.position[{k}]")
+                rest = e - centre_k
+                got_dirs.append(rest)
+                if any(a.startswith("self.position[") for a in rest.atoms()):
+                    bad_k = (k, c)
+            if bad_k is not None:
+                ctx.violate("UNITVEC", site, (fi, rets[0]), f"component {bad_k[0]} of the interface position is `{U(bad_k[1])[:70]}`: it is not centred on self.position[{bad_k[0]}] — the interface "
+                            "points (and the triangulation vertices) are shifted off the interface whenever the centre's coordinates differ")
+                return
+            ctx.hold("UNITVEC", site + ":distance", (fi, rets[0]), "component-wise: centre[k] + distance × direction[k]")
+            want = UNITVEC[dim]
+            dist = Expr.atom("DIST")
+            got = []
+            for r_ in got_dirs:
+                q = r_ * dist.inverse()
+                got.append(q.show())
+            ctx.decide(got == want, "UNITVEC", site + ":direction", (fi, rets[0]),
+                       "unit vector follows the documented convention " + ("(cos φ, sin φ)" if dim == 2 else "(sinθ cosφ, sinθ sinφ, cosθ)"),
+                       f"direction vector is [{', '.join(got)}], expected [{', '.join(want)}] (θ from the z-axis, φ in the x-y plane)")
+        except NotAlgebraic as exc:
+            ctx.undecided("UNITVEC", site, (fi, rets[0]), str(exc))
+        return
     # centre + pos
     if not (isinstance(ex, ast.BinOp) and isinstance(ex.op, ast.Add)):
         ctx.undecided("UNITVEC", site, (fi, rets[0]), f"return is not centre + offset: {U(ex)[:80]}")
@@ -1053,6 +1118,7 @@ def check(ctx: Ctx):
                 if amp_loops(fi):
                     n_loops += len(amp_loops(fi))
                     check_accum(ctx, fi)
+                    check_cover(ctx, fi)
                     ctx.analysed(fi)
         check_coeff(ctx, cname)
         check_dim(ctx, cname)
